@@ -9,6 +9,19 @@ from common import NCPU, VERIF, log, run
 from registry import CRATES
 
 RUSTFLAGS = '--cfg feature="testing"'
+
+
+def rustflags_for(crate):
+    """RUSTFLAGS of the Kani / replay build of a crate.  The global `--cfg feature="testing"` breaks crates
+    whose `testing` feature pulls in optional dependencies (s2n-quic-dc: bach, bolero-generator); such a
+    crate sets "kani_rustflags" in registry.CRATES."""
+    return CRATES[crate].get("kani_rustflags", RUSTFLAGS)
+
+
+def rustflags_env(crate):
+    # an empty RUSTFLAGS variable makes kani-compiler see an empty file-name argument: leave it unset instead
+    f = rustflags_for(crate)
+    return {"RUSTFLAGS": f} if f.strip() else {}
 NAMED = re.compile(r'^"?(C\d\d/[^"]+)"?$')
 
 
@@ -152,7 +165,7 @@ def run_group(scratch, crate, flags, harnesses, jobs, outdir):
     log("kani[%s]: %d harnesses, -j %d, timeout %ds" % (tag, len(names), jobs, tmo))
     # outer limit: build (cold ~3 min) + ceil(n/jobs) rounds of the per-harness timeout
     outer = 900 + tmo * (1 + (len(names) + jobs - 1) // jobs)
-    rc, out, wall = run(cmd, cwd=cwd, env={"RUSTFLAGS": RUSTFLAGS}, timeout=outer, mem_gb=mem)
+    rc, out, wall = run(cmd, cwd=cwd, env=rustflags_env(crate), timeout=outer, mem_gb=mem)
     open(os.path.join(outdir, "kani-%s.log" % tag), "w").write(out)
     results = {h.name: HarnessResult(h) for h in harnesses}
     data = None
@@ -246,7 +259,7 @@ def concrete_playback(scratch, h, outdir, prefer=()):
     cmd = kani_cmd(h.crate, h.flags, [qualified(h)], 0, h.timeout, None,
                    extra=["-Z", "concrete-playback", "--concrete-playback", "print"])
     cwd = os.path.join(scratch.repo, CRATES[h.crate]["dir"])
-    rc, out, wall = run(cmd, cwd=cwd, env={"RUSTFLAGS": RUSTFLAGS}, timeout=h.timeout * 2 + 600, mem_gb=h.mem)
+    rc, out, wall = run(cmd, cwd=cwd, env=rustflags_env(h.crate), timeout=h.timeout * 2 + 600, mem_gb=h.mem)
     open(os.path.join(outdir, "playback-%s.log" % h.name), "w").write(out)
     tests = []
     for blk in out.split("Concrete playback unit test for")[1:]:
